@@ -54,6 +54,7 @@ fn main() {
 	let mut throttle = 0u64;
 	let mut keyboard = false;
 	let mut reject: Vec<String> = Vec::new();
+	let mut toggles = 0u32;
 	let mut i = 1;
 	while i < args.len() {
 		match args[i].as_str() {
@@ -68,6 +69,10 @@ fn main() {
 			"--keyboard" => {
 				i += 1;
 				keyboard = args[i] == "1";
+			}
+			"--keyboard-toggles" => {
+				i += 1;
+				toggles = args[i].parse().unwrap_or(0);
 			}
 			"--reject" => {
 				i += 1;
@@ -124,6 +129,16 @@ fn main() {
 		let main = wx.main();
 		// the signal worker registers its listeners when first polled
 		tokio::time::sleep(Duration::from_millis(50)).await;
+		// the keyboard source switched on and off at run time before anything is sent
+		let mut cur = keyboard;
+		for _ in 0..toggles {
+			tokio::time::sleep(Duration::from_millis(40)).await;
+			cur = !cur;
+			wx.config.keyboard_events(cur);
+		}
+		if toggles > 0 {
+			tokio::time::sleep(Duration::from_millis(40)).await;
+		}
 		log(&logp, &format!("ready {} {}", std::process::id(), mono_ns()));
 		let r = main.await;
 		log(&logp, &format!("mainend {} {r:?}", mono_ns()));
